@@ -113,6 +113,17 @@ def mutations():
     def _(d):
         low = vtype("Low", "interface", ["Mid", "Base"], copy.deepcopy(T_(d, "Mid")["fields"]) + [field("low", "Int")])
         d["types"].append(low); d["types"].append(vtype("Leaf", "type", ["Low", "Mid", "Base"], [f for f in copy.deepcopy(low["fields"]) if f["name"] != "m"]))
+    # the per-field rules also apply to an implementer's own copy of an inherited field (its defaults may legally differ from the interface's)
+    @m("inherited_edge_bad_default_on_implementer_only")
+    def _(d): F_(T_(d, "B"), "link")["params"][0] = param("min", "Int", S("x"))
+    @m("inherited_edge_null_default_for_narrowed_nonnull")
+    def _(d):
+        for tn in ("Base", "Mid", "A", "B"): F_(T_(d, tn), "link")["params"][0] = param("min", "Int!", I(0))
+        F_(T_(d, "A"), "link")["params"][0] = param("min", "Int!", NULL); F_(T_(d, "A"), "link")["params"][0]["hasDefault"] = True
+    @m("inherited_edge_different_default_ok")
+    def _(d): F_(T_(d, "B"), "link")["params"][0] = param("min", "Int", I(7)); F_(T_(d, "A"), "link")["params"][1] = param("tag", "String", S("t"))
+    @m("inherited_property_given_parameter_on_implementer")
+    def _(d): F_(T_(d, "B"), "name")["params"] = [param("x", "Int")]
     @m("unknown_field_type")
     def _(d): T_(d, "B")["fields"].append(field("ghost", "Ghost"))
     @m("custom_scalar_property")
